@@ -236,10 +236,12 @@ class Ctx:
         for k, v in arrays.items():
             self.arrays[k] = np.asarray(v)
 
-    def lib(self, fn, *args, allow=(), clause='raises', **kwargs):
-        """Call the code under test.  An exception of a type in ``allow``
-        means the input was refused explicitly (Rejected); any other
-        exception is a violation of ``clause``."""
+    def lib(self, fn, *args, allow=(), allow_if=None, clause='raises',
+            **kwargs):
+        """Call the code under test.  An exception of a type in ``allow`` (or
+        accepted by the predicate ``allow_if``) means the input was refused
+        explicitly (Rejected); any other exception is a violation of
+        ``clause``."""
         try:
             return fn(*args, **kwargs)
         except (Violation, Rejected, Borderline):
@@ -247,6 +249,8 @@ class Ctx:
         except allow as e:  # noqa
             raise Rejected(f'{type(e).__name__}: {_short(str(e), 120)}')
         except Exception as e:  # noqa
+            if allow_if is not None and allow_if(e):
+                raise Rejected(f'{type(e).__name__}: {_short(str(e), 120)}')
             name = getattr(fn, '__qualname__', getattr(fn, '__name__', str(fn)))
             raise Violation(
                 clause, f'{name} raised {type(e).__name__}: '
